@@ -32,9 +32,33 @@ def gen_trees(ctx, n, maxsize):
     return out
 
 
+def boundary_trees(r):
+    """lists whose first element is repeated once, d positions later: the path to the first copy has
+    d bits, so its encoding crosses the 'not longer than the node' bound exactly when d crosses
+    8*(L-2) for a node of classic length L; the repeated node is an atom or a small pair"""
+    out = []
+    for alen in (3, 4, 5):
+        for d in sorted(set(range(8 * (alen - 1) - 3, 8 * (alen - 1) + 4)) | {7, 8, 9}):
+            x = bytes(r.getrandbits(8) | 1 for _ in range(alen))
+            items = [x] + [bytes([1 + (i % 120)]) + (b"" if i < 120 else b"\x01") for i in range(d - 1)] + [x]
+            t = b""
+            for it in reversed(items):
+                t = (it, t)
+            out.append(t)
+    for d in (7, 8, 9, 15, 16, 17, 23, 24, 25):
+        x = (bytes([0x81]), bytes([0x82]))        # classic length 5
+        items = [x] + [bytes([1 + i]) for i in range(d - 1)] + [x]
+        t = b""
+        for it in reversed(items):
+            t = (it, t)
+        out.append(t)
+    return out
+
+
 def run(ctx):
+    r = ctx.rng
     ctx.rule = ("DAG-shared trees: random shapes over a small atom pool with sub-tree reuse probability 0-0.5, towers that repeat one "
-                "sub-tree at varying depths, gen.gen_tree with sharing; atoms of 0-70 bytes incl. lengths at the 0x3f/0x40 prefix boundary. "
+                "sub-tree at varying depths, gen.gen_tree with sharing, and lists that repeat an atom / small pair of classic length 4-6 at the distances around 8, 16, 24, 32 (where the path encoding grows by a byte and where the path-length bound of find_paths is crossed); atoms of 0-70 bytes incl. lengths at the 0x3f/0x40 prefix boundary. "
                 "non-trivial = distinct tree whose compressed form is shorter than its classic form (at least one back-reference)")
     ctx.explanation = ("Theorems (Props/C17.v): C17_emit_ok, C17_enc_canonical, C17_format_never_grows (format level, any emitter; also what C19 needs); "
                        "C17_serializer_emits_valid_paths, C17_roundtrip, C17_never_grows, C17_canonical, C17_idempotent (serializer level, premise: tree hash injective, "
@@ -48,7 +72,7 @@ def run(ctx):
         return
     # 1. model vs implementation, byte for byte (extracted SHA-256 is slow: keep these small)
     small = gen_trees(ctx, ctx.scale(500, 6000), 40)
-    small = [t for t in small if gen_br.tree_size(t) <= 120]
+    small = [t for t in small if gen_br.tree_size(t) <= 120] + boundary_trees(r)
     cases = ["ser " + gen.tt(t) for t in small]
     corr_par.correspond(ctx, "br", cases, name="ser_br", nontrivial=lambda c, a, b: False)
     # 2. the property itself on the implementation: larger trees
